@@ -88,11 +88,13 @@ Params(F) == LET ps == {p \in 1..Len(F) : F[p].k = "param" /\ ~InsideBlock(F, p)
              [key \in {KeyOf(F[p].name, F[p].cs) : p \in ps} |-> F[CHOOSE p \in ps : KeyOf(F[p].name, F[p].cs) = key].v]
 UnitExp(body) == IF Len(body) > 0 /\ body[1].k = "units" /\ body[1].name = "bohr" /\ BohrFactor = "a0" THEN 1 ELSE 0
 Rows(body) == SelectSeq(body, LAMBDA ln : ln.k = "row")
+(* the numbers of a row may themselves stand for multiples of a0 (a file written from data that came from bohr) *)
+RowExp(rows) == IF Len(rows) = 0 THEN 0 ELSE rows[1].v.i
 RECURSIVE Flat3(_, _)
 Flat3(rows, n) == IF n > Len(rows) THEN <<>> ELSE SubSeq(rows[n].v.q, 1, 3) \o Flat3(rows, n + 1)
 (* get_unit_cell_cart_ang *)
 CellOf(F) == IF ~HasBlock(F, "unit_cell_cart") THEN VNone
-             ELSE LET b == Body(F, "unit_cell_cart") IN VCell(Flat3(Rows(b), 1), UnitExp(b))
+             ELSE LET b == Body(F, "unit_cell_cart") IN VCell(Flat3(Rows(b), 1), UnitExp(b) + RowExp(Rows(b)))
 (* get_kpoints: the first three numbers of every line *)
 KptsOf(F) == IF ~HasBlock(F, "kpoints") THEN VNone ELSE VKpts(Flat3(Rows(Body(F, "kpoints")), 1))
 (* get_projections: the lines, stripped; a units line is not part of them *)
@@ -108,10 +110,10 @@ FlatFrac(rows, cell, n) == IF n > Len(rows) THEN <<>> ELSE CartToFrac8(rows[n].v
 (* get_atoms: atoms_frac as given; atoms_cart: converted to Angstrom and multiplied by the inverse cell (in Angstrom) *)
 AtomsOf(F) ==
    IF HasBlock(F, "atoms_frac") THEN
-      LET r == Rows(Body(F, "atoms_frac")) IN [frac |-> VFrac(Flat3(r, 1), 0), names |-> VNames([n \in 1..Len(r) |-> r[n].v.s])]
+      LET r == Rows(Body(F, "atoms_frac")) IN [frac |-> VFrac(Flat3(r, 1), RowExp(r)), names |-> VNames([n \in 1..Len(r) |-> r[n].v.s])]
    ELSE IF HasBlock(F, "atoms_cart") /\ HasBlock(F, "unit_cell_cart") THEN
       LET b == Body(F, "atoms_cart")  r == Rows(b)  c == CellOf(F) IN
-      [frac |-> VFrac(FlatFrac(r, c.q, 1), UnitExp(b) - c.i), names |-> VNames([n \in 1..Len(r) |-> r[n].v.s])]
+      [frac |-> VFrac(FlatFrac(r, c.q, 1), UnitExp(b) + RowExp(r) - c.i), names |-> VNames([n \in 1..Len(r) |-> r[n].v.s])]
    ELSE [frac |-> VNone, names |-> VNone]
 AtomsDyadic(F) == (~HasBlock(F, "atoms_frac") /\ HasBlock(F, "atoms_cart") /\ HasBlock(F, "unit_cell_cart")) =>
                      \A n \in 1..Len(Rows(Body(F, "atoms_cart"))) : CartDyadic(Rows(Body(F, "atoms_cart"))[n].v.q, CellOf(F).q)
